@@ -1709,3 +1709,70 @@ Lemma non_ascii_example :
   cmd lib_model_ok (lib_model_ok_v V31) V31 non_ascii_u = Failed /\
   match emit V30 non_ascii_u with Some d => wf d | None => false end = true.
 Proof. vm_compute. repeat split. Qed.
+
+(* ------------------------------------------------------------------ *)
+(* declared types read as declared types (sub-claim 5 of the C07 oracle) *)
+
+Lemma schema_by_text_unshadowed t : unshadowed t = true -> schema_by_text t = schema_of_texpr t.
+Proof.
+  induction t as [n| |p n|e IH|e IH|k IHk v IHv]; intros H.
+  - reflexivity.
+  - vm_compute. reflexivity.
+  - cbn [unshadowed] in H. unfold name_unshadowed in H. cbn [schema_by_text schema_of_texpr].
+    destruct (leaf_schema n) eqn:E; try discriminate. apply str_eqb_spec in H. subst. reflexivity.
+  - cbn [unshadowed] in H. cbn [schema_by_text schema_of_texpr]. auto.
+  - cbn [unshadowed] in H. cbn [schema_by_text schema_of_texpr]. rewrite (IH H). reflexivity.
+  - cbn [unshadowed] in H. cbn [schema_by_text schema_of_texpr]. rewrite (IHv H). reflexivity.
+Qed.
+
+Lemma existsb_ext_in' {A} (f g : A -> bool) l :
+  (forall x, In x l -> f x = g x) -> existsb f l = existsb g l.
+Proof.
+  induction l as [|a l IH]; intros H; simpl; [reflexivity|].
+  rewrite (H a (or_introl eq_refl)), IH; [reflexivity|]. intros x Hx. apply H. right. exact Hx.
+Qed.
+
+(* on structs whose field types are unshadowed the strict reading accepts what [struct_by_text] accepts *)
+Theorem struct_by_text_strict_of_text fs c :
+  (forall f, In f fs -> unshadowed (f_type f) = true) ->
+  struct_by_text fs c = true -> struct_by_text_strict fs c = true.
+Proof.
+  intros Hun H. unfold struct_by_text in H. unfold struct_by_text_strict.
+  repeat (apply andb_prop in H; destruct H as [H ?]).
+  apply andb_true_intro. split.
+  - match goal with Hp : forallb _ (k_props c) = true |- _ => rewrite forallb_forall in Hp end.
+    apply forallb_forall. intros p Hp.
+    match goal with Hq : forall x, In x (k_props c) -> _ |- _ => specialize (Hq p Hp); rewrite <- Hq end.
+    apply existsb_ext_in'. intros f Hf. apply filter_In in Hf. destruct Hf as [Hf _].
+    unfold field_schema_text, field_schema. rewrite (schema_by_text_unshadowed _ (Hun f Hf)). reflexivity.
+  - match goal with Ha : list_eqb schema_eqb (k_allof c) _ = true |- _ => rewrite <- Ha end.
+    f_equal. apply map_ext_in. intros f Hf. apply filter_In in Hf. destruct Hf as [Hf _].
+    apply schema_by_text_unshadowed. apply Hun. exact Hf.
+Qed.
+
+(* the model's struct component satisfies the strict reading on unshadowed field types *)
+Theorem struct_shape_strict fs :
+  (forall f, In f fs -> unshadowed (f_type f) = true) -> struct_by_text_strict fs (struct_comp fs) = true.
+Proof. intros H. apply struct_by_text_strict_of_text; [exact H | apply struct_shape]. Qed.
+
+(* Full statement: forall fs, struct_by_text_strict fs (struct_comp fs) = true.  Refuted by the code as it
+   is: a struct the project calls Time is documented as a date-time string wherever it is used
+   (ToOpenApiType dispatches on the bare identifier "Time") *)
+Definition time_shadow_fields : list field :=
+  [ mkField (s "At") false (Some (s "at")) [] (TNamed (s "types") (s "Time"));
+    mkField (s "Log") false None [] (TSlice (TNamed (s "types") (s "Time"))) ].
+
+Theorem struct_shape_strict_refuted :
+  struct_by_text time_shadow_fields (struct_comp time_shadow_fields) = true /\
+  struct_by_text_strict time_shadow_fields (struct_comp time_shadow_fields) = false /\
+  map snd (k_props (struct_comp time_shadow_fields)) =
+    [SType (s "string") (s "date-time"); SArr (SType (s "string") (s "date-time"))].
+Proof. vm_compute. repeat split. Qed.
+
+(* non-vacuity: field types named Duration, Int, String, Any ... are unshadowed, and Time is not *)
+Example unshadowed_example :
+  unshadowed (TMap (TPrim (s "string")) (TSlice (TPtr (TNamed (s "types") (s "Duration"))))) = true /\
+  forallb (fun n => unshadowed (TNamed (s "types") (s n)))
+          ["Duration"; "Int"; "String"; "Any"; "Error"; "Bytes"; "Object"; "Context"; "tracking"]%string = true /\
+  unshadowed (TNamed (s "types") (s "Time")) = false.
+Proof. vm_compute. repeat split. Qed.
